@@ -269,6 +269,17 @@ def run(ctx):
             if np.shape(a) != (n, 2) or np.any(a < 0) or np.any(a >= 1):
                 ctx.impl_violation(f"{name}: returned an array of shape {np.shape(a)}, expected exactly {n} points of the unit square", dict(case=name, fn="uniform", n=n, seed=seed))
             ctx.case((name,), nontrivial=True)
+    # ---- uniform with n given as a numpy integer of any width (arithmetic on n must not be done in n's own dtype)
+    for n in (np.uint8(200), np.uint8(255), np.int8(127), np.uint16(65535), np.int16(300), np.int32(1000), np.int64(77)):
+        seed = int(rng.integers(2 ** 31))
+        name = f"uniform(n={type(n).__name__}({int(n)}), seed={seed})"
+        try:
+            a = psets.uniform(n, rng=np.random.default_rng(seed)); b = psets.uniform(int(n), rng=np.random.default_rng(seed))
+            if np.shape(a) != (int(n), 2) or not np.array_equal(a, b):
+                ctx.impl_violation(f"{name}: returned an array of shape {np.shape(a)}, not the {int(n)} points returned for the Python integer {int(n)}", dict(case=name, fn="uniform", n=int(n), dtype=type(n).__name__, seed=seed))
+        except Exception as ex:
+            ctx.impl_violation(f"{name}: raised {type(ex).__name__}: {ex}", dict(case=name, fn="uniform", n=int(n), dtype=type(n).__name__, seed=seed))
+        ctx.case((name,), nontrivial=True)
     # ---- uniform
     for n in ([0, 1, 2, 7, 100, 1000] if quick else list(range(0, 1001, 7)) + [1000]):
         seed = int(rng.integers(2 ** 31))
